@@ -141,6 +141,13 @@ class CPCCARotator(CPCCA):
         max_iter = self._params["max_iter"]
         rtol = self._params["rtol"]
 
+        n_modes_model = model.data["singular_values"].sizes["mode"]
+        if n_modes > n_modes_model:
+            raise ValueError(
+                f"n_modes={n_modes} exceeds the number of modes of the model "
+                f"({n_modes_model})"
+            )
+
         # Construct the combined vector of loadings
         # NOTE: In the methodology
         # used by Cheng & Dunkerton (CD95), the combined vectors are "loaded" or
